@@ -2108,9 +2108,10 @@ class unyt_array(np.ndarray):
                     out.units = Unit("", registry=self.units.registry)
             elif isinstance(out, tuple):
                 for o, oa in zip(out, out_arr):
-                    if o is None:
+                    if not isinstance(o, unyt_array):
+                        # None or a plain ndarray: nothing to label
                         continue
-                    o.units = oa.units
+                    o.units = getattr(oa, "units", NULL_UNIT)
         if mul == 1:
             return out_arr
         return mul * out_arr
